@@ -294,3 +294,34 @@ for _prop in ("C02", "C01"):
                 S.forall(f"{tag}:row-in-the-domain-at-its-own-parameter-row", pts.f["_t"], lambda q, t=t: dom.in_pred([zreal(t.at([q[0], (c,)])) for c in range(2)], [zreal(Tt.val.at([(q[0][0],), ()]))]), extra_hyps=inst)
     _adaptive_rows.__name__ = "adaptive_samplers_keep_the_rows_grouped_by_parameter_row"
     scenario(_prop, [ATS + ".sample_points", ARS + ".sample_points"], configs=["threshold", "random"])(_adaptive_rows)
+
+
+ES = "torchphysics.problem.samplers.sampler_base.EmptySampler"
+
+
+@scenario("C15", [PS + ".__iter__", PS + ".__next__", SS + ".__next__", ES + ".__init__", ES + ".sample_points", PS + ".empty"], configs=["iteration-protocol"])
+def iteration_protocol_follows_the_same_state_machines(S):
+    """samplers used as iterators: next() of a non-static sampler draws fresh points every time; next() of a static
+    sampler returns the stored points once they exist (the object sample_points returned) and draws otherwise;
+    PointSampler.empty() is a static sampler of empty point sets, for any parameters"""
+    I = S.I
+    dom = abstract_domain(S, "D", S.new(R2, "x"))
+    n = S.int("n", 1)
+    smp = S.new(RUS, dom.obj, n_points=n)
+    S.ensure("iter-returns-the-sampler-itself", S.method(smp, "__iter__") is smp)
+    a, b = S.method(smp, "__next__"), S.method(smp, "__next__")
+    draws = [c for c in dom.calls if c["kind"] == "random"]
+    S.ensure("next-of-a-non-static-sampler-draws-every-time", len(draws) == 2 and a is not b)
+    S.ensure("next-returns-n-points", a.f["_t"].val.shape[0].size_term() == zint(n))
+    st = S.method(S.new(RUS, dom.obj, n_points=n), "make_static")
+    p1 = S.method(st, "__next__")
+    p2 = S.method(st, "__next__")
+    p3 = S.method(st, "sample_points")
+    S.ensure("next-of-a-static-sampler-draws-once-and-then-returns-the-stored-points", len([c for c in dom.calls if c["kind"] == "random"]) == 3 and p1 is p2 and p2 is p3)
+    e = S.call(S.getattr(S.find(PS), "empty"))
+    S.ensure("empty-sampler-is-static", I.truth(S.getattr(e, "is_static")))
+    K = S.int("K", 1)
+    params = S.new(POINTS, S.tensor("tt", [K, 1]), S.new(R1, "t"))
+    for tag, r in (("without-parameters", S.method(e, "sample_points")), ("with-parameters", S.method(e, "sample_points", params)), ("through-next", S.method(e, "__next__"))):
+        S.ensure(f"empty-sampler-gives-empty-points-{tag}", I.truth(S.getattr(r, "isempty")))
+    S.ensure("length-of-the-empty-sampler-is-zero", zint(I.pylib.b_len(I, S.new(ES))) == 0)
